@@ -20,7 +20,8 @@
     * `triviaOk`    WHITESPACE / COMMENT bodies are not nullable.
   Conservative points (a grammar rejected here may still terminate): stack terminals, SOI/EOI,
   predicates and `optChoice` nodes count as nullable; `e{,n}` and `e{0,n}` count the trivia rules
-  as left-called.
+  as left-called; atomicity is not tracked (implicit trivia counts as called also where an `@`/`$`
+  rule or a trivia rule has switched it off).
 -/
 import PestModel.Expr
 
